@@ -114,6 +114,20 @@ CLAIMS = {
         note=TRUST + "One stated assumption: the remainder of a division by 10^k prints at most k digits.",
         technique="static analysis: table identities, interval/piecewise-linear index bounds, borrow (stale pointer) dataflow",
         ref="DESIGN.md section 4 C10"),
+    "C12": dict(
+        text="Static analysis, partial: typestate of the tagged union over the CFG of every uninstantiated Value "
+             "member (all Char_T): every touch of a union member happens with the payload proven to be of that "
+             "member's kind or (re)initialises a zero/moved payload; no exit leaves a discriminant written "
+             "independently of a payload that may own memory, or an owning kind over a payload of another kind; "
+             "reset() only while in sync; copyValue's zero-entry contract at its call sites; and, with the record "
+             "layout of the instantiation view, reset() zeroes all 16 payload bytes in every arm. Facts are derived "
+             "from switch arms, isK() predicates discovered from their bodies, discriminant copies, equality of two "
+             "discriminants, setType*, reset and Memory::Move, kept as a small disjunction per receiver. Decides "
+             "necessary typestate clauses; not agreement with an abstract document model.",
+        note=TRUST + "Assumes public methods re-establish the invariant payload kind == discriminant for other "
+             "receivers; two named fall-through suppressions (Storage()/End()).",
+        technique="static analysis: tagged-union typestate (disjunctive dataflow) + record-layout coverage",
+        ref="DESIGN.md section 4 C12, section 3.1 E-TAG"),
     "C20": dict(
         text="Static analysis, partial but exhaustive over code points: every CFG path of the three "
              "UnicodeToUTF::ToUTF specialisations is summarised in a bit-level abstract domain (interval of the code "
